@@ -26,6 +26,7 @@ RULE = (
     '(start, stop) admissible pairs x methods {dijkstra, bellman-ford, dijkstra-exp, simple, minmax-energy}; '
     'one volume object serves both neighbourhood modes; C / Fortran / transposed-view memory layouts; long-axis walls separating the sum criteria from minmax-energy; percolation: 7 direction sets x all peak subsets of size <= 2 and all orders of 3 peaks; path.sites re-read after the wrapped/fractional accessors; evaluation = one path query; distinct = '
     'distinct (grid, mode, start, stop, method, cost) outcomes'
+    '; a quarter of the (start, stop, method) requests also through optimal_n_paths(n_paths=2); for a quarter of the small grids and all family grids a graph with a lower threshold is requested from the same volume first'
 )
 LEVEL_TEXT = (
     'Bounded-exhaustive over all small periodic grids of the alphabet and structured larger ones; every '
